@@ -12,6 +12,7 @@
 import Golib.HMap.LinkedStep
 import Golib.HMap.Types
 import Golib.HMap.Multi
+import Golib.HMap.Enum
 
 set_option linter.unusedSectionVars false
 
@@ -304,7 +305,7 @@ theorem sort_unique (lt : K → K → Bool) (l l' : List (K × V)) (hn : (AL.key
 /-! ### sets are maps to Unit -/
 
 /-- descriptor of the linked sets -/
-def setDesc (K : Type) : Desc K Unit := { comb := fun _ _ => () }
+def setDesc (K : Type) : Desc K Unit := { comb := fun _ _ => (), veq := fun _ _ => true }
 
 /-- LinkedSet / IntLinkedSet / StringLinkedSet: the set API is the map API at `V = Unit`
     (Put k = put k (), Contains = containsKey, …), so every history of a set is a history of the dictionary -/
@@ -322,6 +323,62 @@ theorem set_entries (hash : K → Nat) (d : Desc K Unit) (m : LMap K Unit) (h : 
   induction l with
   | nil => rfl
   | cons e t ih => obtain ⟨a, u⟩ := e; cases u; simp only [AL.keys, List.map_cons, List.map_map] at ih ⊢; rw [← ih]
+
+/-! ### SetMax on a map that already holds more than the new bound: exact behaviour -/
+
+/-- `SetMax(n)` itself never removes an entry (whatever `n`) -/
+theorem setMax_keeps (d : Desc K V) (s : S K V) (n : Nat) :
+    (S.step d s (.setMax n)).1.ents = s.ents ∧ (S.step d s (.setMax n)).1.max = n := ⟨rfl, rfl⟩
+
+/-- … the surplus stays until the next *insertion* of an absent key, which evicts down to `n - 1` entries from
+    the end opposite to the insertion end and then inserts: exactly `n` entries remain — the last `n - 1` old
+    ones for put / put-last, the first `n - 1` old ones for put-first -/
+theorem over_bound_insert (d : Desc K V) (s : S K V) (k : K) (v : V) (hk : AL.get s.ents k = none)
+    (hr : d.refuse k = false) (hm : 0 < s.max) (hover : s.max ≤ s.ents.length) :
+    (S.put d s .last k v).1.ents = s.ents.drop (s.ents.length + 1 - s.max) ++ [(k, v)] ∧
+    (S.put d s .forceLast k v).1.ents = s.ents.drop (s.ents.length + 1 - s.max) ++ [(k, v)] ∧
+    (S.put d s .forceFirst k v).1.ents = (k, v) :: s.ents.take (s.max - 1) ∧
+    (S.put d s .last k v).1.ents.length = s.max ∧ (S.put d s .forceFirst k v).1.ents.length = s.max := by
+  have e := evict_opposite_end d s k v hk hr
+  have hf : AL.evictFront s.ents s.max = s.ents.drop (s.ents.length + 1 - s.max) := by
+    unfold AL.evictFront; simp [hm, hover]
+  have hb : AL.evictBack s.ents s.max = s.ents.take (s.max - 1) := by
+    unfold AL.evictBack; simp [hm, hover]
+  refine ⟨by rw [e.1, hf], by rw [e.2.1, hf], by rw [e.2.2.1, hb], ?_, ?_⟩
+  · rw [e.1, hf]; simp [List.length_drop]; omega
+  · rw [e.2.2.1, hb]; simp [List.length_take]; omega
+
+/-- … while updating a present key of an over-full map evicts nothing (`no_evict_on_update` has no bound hypothesis),
+    and Sort re-inserts under the bound: the last `max` entries of the sorted sequence remain -/
+theorem over_bound_sort (d : Desc K V) (s : S K V) (lt : K → K → Bool) (hm : 0 < s.max) (hover : s.max < s.ents.length) :
+    (S.step d s (.sort lt)).1.ents = (AL.sortEnts lt s.ents).drop (s.ents.length - s.max) ∧
+    (S.step d s (.sort lt)).1.ents.length = s.max := by
+  have hl : (AL.sortEnts lt s.ents).length = s.ents.length := (List.mergeSort_perm _ _).length_eq
+  have : (S.step d s (.sort lt)).1.ents = (AL.sortEnts lt s.ents).drop (s.ents.length - s.max) := by
+    simp only [S.step, AL.keepLast, hl, hm, hover, and_self, if_true]
+  refine ⟨this, ?_⟩
+  rw [this, List.length_drop, hl]; omega
+
+/-! ### enumerator objects: HasMoreElements / Next -/
+
+/-- an enumeration taken while the map is not modified: calling HasMoreElements / Next until exhausted on a
+    `Keys()` enumerator yields every stored key exactly once, in the order of the dictionary; the `Values()`
+    and `Entries()` enumerators yield the values / entries of those keys in the same order -/
+theorem enumerator_protocol (hash : K → Nat) (d : Desc K V) (m : LMap K V) (h : LMap.Inv hash d m) :
+    LEnum.drain m.count m.openEnum = AL.keys (LMap.abs hash m).ents ∧
+    (LEnum.drain m.count m.openEnum).Nodup ∧
+    m.enumValues hash (LEnum.drain m.count m.openEnum) = (LMap.abs hash m).ents.map Prod.snd ∧
+    m.enumEntries hash (LEnum.drain m.count m.openEnum) = (LMap.abs hash m).ents := by
+  have hd : LEnum.drain m.count m.openEnum = m.order :=
+    LEnum.drain_eq _ _ (by show m.order.length ≤ m.count; rw [h.count]; exact Nat.le_refl _)
+  rw [hd]
+  refine ⟨(LMap.abs_keys h).symm, h.nodup, ?_, rfl⟩
+  exact (map_snd_absL (m.tab.get hash) m.order).symm
+
+/-- the protocol itself: `Next` is defined exactly when `HasMoreElements` answers true, and an exhausted
+    enumerator stays exhausted -/
+theorem enumerator_hasMore_next (e : LEnum K) : e.hasMore = e.next.isSome := by
+  obtain ⟨r⟩ := e; cases r <;> rfl
 
 /-! ### several live containers: no aliasing -/
 
@@ -349,16 +406,36 @@ theorem contains_after_put_partial (d : Desc K V) (hreg : d.regular) (s : S K V)
   have hg := get_put d s mode k v h (hreg.1 k)
   simp [S.step, hreg.2 k, hg]
 
+/-- complete characterisation (D15): after `put k v` the key is reported as contained **iff** the descriptor is not
+    blind for `k` and either does not refuse `k` or `k` was present before.  So the property's statement
+    ("a key that was put is contained") fails exactly for the blind keys and for refused keys that are absent. -/
+theorem contains_after_put_iff (d : Desc K V) (s : S K V) (mode : Mode) (k : K) (v : V) (h : s.WF) :
+    (S.step d (S.put d s mode k v).1 (.containsKey k)).2 = .bool true ↔
+      d.blind k = false ∧ (d.refuse k = false ∨ k ∈ AL.keys s.ents) := by
+  cases hr : d.refuse k with
+  | true =>
+    have hp : (S.put d s mode k v).1 = s := by simp [S.put, hr]
+    rw [hp]
+    simp only [S.step, Out.bool.injEq, Bool.and_eq_true, Bool.not_eq_eq_eq_not, Bool.not_true, AL.get_isSome_iff]
+    constructor
+    · rintro ⟨a, b⟩; exact ⟨a, Or.inr b⟩
+    · rintro ⟨a, b | b⟩
+      · exact absurd b (by simp)
+      · exact ⟨a, b⟩
+  | false =>
+    have hg := get_put d s mode k v h hr
+    simp [S.step, hg]
+
 /-- … StringLinkedSet (`blind ""`): Put("") stores the key, Contains("") answers false -/
 theorem finding_D15_blind :
-    let d : Desc String Unit := { comb := fun _ _ => (), blind := fun k => k == "" }
+    let d : Desc String Unit := { comb := fun _ _ => (), veq := fun _ _ => true, blind := fun k => k == "" }
     (S.step d (S.put d {} .last "" ()).1 (.containsKey "")).2 = .bool false ∧
     (S.put d {} .last "" ()).1.ents = [("", ())] := by
   decide
 
 /-- … String{Int,Long}LinkedMap (`refuse ""`): Put("", 5) is ignored -/
 theorem finding_D15_refuse :
-    let d : Desc String Int := { comb := fun a b => a + b, refuse := fun k => k == "" }
+    let d : Desc String Int := { comb := fun a b => a + b, veq := fun a b => a == b, refuse := fun k => k == "" }
     (S.step d (S.put d {} .last "" 5).1 (.get "")).2 = .none ∧ (S.put d {} .last "" 5).1.ents = [] := by
   decide
 
@@ -378,7 +455,7 @@ example : LMap.Inv (fun k : Int => k.toNat) (setDesc Int) (LMap.new (fun c => c 
 
 /-- a history with growth, collisions (constant hash), a bound and eviction; outputs computed by the CodeModel -/
 example :
-    (LMap.run (fun _ : Int => 7) (fun c => c / 2) ({ comb := fun a b => a + b } : Desc Int Int) (LMap.new (fun c => c / 2) 1)
+    (LMap.run (fun _ : Int => 7) (fun c => c / 2) ({ comb := fun a b => a + b, veq := fun a b => a == b } : Desc Int Int) (LMap.new (fun c => c / 2) 1)
       [.setMax 2, .put .last 1 10, .put .last 2 20, .put .forceFirst 3 30, .add .last 3 5, .entries]).2
       = [.unit, .none, .none, .none, .val 30, .ents [(3, 35), (1, 10)]] := by decide
 
